@@ -66,6 +66,38 @@ def run_small(key):
     return ok(outcome=res, flags=['greedy_lt_optimal'] if res == 'ne' else [], states=1, transitions=2)
 
 
+def run_stacked(key):
+    """a stack of score matrices with 1..3 leading axes (equal and unequal sizes): entry [:, i, j, ..] of the
+    result is the optimal assignment of matrix [i, j, ..] and has the documented shape (K, *leading)."""
+    pa = _pa()
+    K, lead, alg, seed = key['K'], tuple(key['lead']), key['alg'], key['seed']
+    r = A.rng(seed, 'c15stack', K, lead)
+    n = int(np.prod(lead))
+    perms = list(itertools.permutations(range(K)))
+    S = r.integers(0, 3, size=lead + (K, K)).astype(float) + 0.01 * r.uniform(0, 1, lead + (K, K))
+    # every matrix favours its own permutation, different ones in different bins
+    for j, idx in enumerate(np.ndindex(*lead)):
+        pm = perms[(3 * j + 1) % len(perms)]
+        S[idx][range(K), pm] += 5.0
+    S.setflags(write=False)
+    try:
+        got = np.asarray(pa._mapping_from_score_matrix(S, algorithm=alg))
+    except Exception as e:  # noqa
+        return viol(f'_mapping_from_score_matrix raised {e!r} for a stack of shape {S.shape}')
+    if got.shape != (K,) + lead:
+        return viol(f'mapping shape {got.shape} != documented {(K,) + lead}')
+    for j, idx in enumerate(np.ndindex(*lead)):
+        one = np.asarray(pa._mapping_from_score_matrix(S[idx], algorithm=alg))
+        m = got[(slice(None),) + idx]
+        if m.tolist() != one.tolist():
+            return viol(f'{alg}: entry {list(idx)} of the stacked mapping is {m.tolist()}, the matrix alone gives '
+                        f'{one.tolist()}')
+        want = list(perms[(3 * j + 1) % len(perms)])
+        if m.tolist() != want:
+            return viol(f'{alg}: entry {list(idx)} is {m.tolist()}, the unique optimum is {want}')
+    return ok(outcome=f'{K}:{lead}', evals=n + 1, states=n, transitions=n)
+
+
 def run_perm_perturb(key):
     pa = _pa()
     K, pidx = key['K'], key['perm']
@@ -239,6 +271,15 @@ def subchecks(tier, seed):
                 yield (K, idx)
     subs.append(Sub('score_matrices_small', ('K', 'idx'), small_cases, run_small,
                     bound=dict(alphabet='{0,1,2}^(KxK), K<=3'), require_flags=('greedy_lt_optimal',)))
+
+    def stack_cases():
+        leads = [(1,), (4,), (2, 2), (3, 3), (2, 3), (3, 2), (1, 4), (2, 2, 2), (2, 3, 2), (3, 1, 3)]
+        for K in (2, 3, 4):
+            for lead in leads:
+                for alg in ('optimal', 'greedy'):
+                    yield (K, lead, alg, seed)
+    subs.append(Sub('score_matrix_stacks', ('K', 'lead', 'alg', 'seed'), stack_cases, run_stacked,
+                    bound=dict(leading_axes='1..3 axes, equal and unequal sizes', K=[2, 3, 4])))
 
     def pp_cases():
         for K in (4, 5, 6):
